@@ -14,7 +14,10 @@ Contents
 * 4. the elementary operations as such steps: `dinv_applyOp` (put: new key / winner / loser; remove), `dinv_applyE`
   (insert; single-target delete: live / restamp / no-op; single-target update: winner / loser).
 * 5. batches (`dinv_applyAllE`), `dinv_applyD`; the theorems asked for: `docInv_remote`, `LifeStep`, `Life`,
-  `docInv_life`, `life_call_refines`; 6. `DR.Ex`: non-vacuity.
+  `docInv_life`, `life_call_refines`.
+* 6. `goodD_single_obj`, `goodD_single_arr` (a single applicable operation is `GoodD`); `DR.Ex`: non-vacuity — a `Life` run
+  with three local calls and two deliveries from another client (an object put that is CONCURRENT to the local calls and
+  loses, a later array update), `docInv_life` and `life_call_refines` instantiated on it.
 -/
 import Orda.Proofs.DocPlain
 import Orda.Proofs.DocMixed
